@@ -2,6 +2,7 @@ package an
 
 import (
 	"fmt"
+	"go/token"
 	"sort"
 	"strings"
 
@@ -34,6 +35,10 @@ type Flow struct {
 	// the states at its returns). Step is still applied to the call
 	// instruction first; a non-nil Step result suppresses inlining.
 	Inline func(call ssa.CallInstruction) *ssa.Function
+	// OnReturn, if set, is applied to every state at a return of an inlined
+	// callee before the state is carried back to the call site (for instance to
+	// record what the callee returns on that path).
+	OnReturn func(st string, ret *ssa.Return, call ssa.CallInstruction) string
 
 	inlineMemo  map[string][]string
 	inlineStack map[*ssa.Function]bool
@@ -60,12 +65,15 @@ func InlineSamePackage(root *ssa.Function) func(call ssa.CallInstruction) *ssa.F
 
 // exitStates runs the automaton over callee from the given user state and
 // returns the user states at its returns.
-func (f *Flow) exitStates(callee *ssa.Function, user string) []string {
+func (f *Flow) exitStates(callee *ssa.Function, user string, call ssa.CallInstruction) []string {
 	if f.inlineMemo == nil {
 		f.inlineMemo = map[string][]string{}
 		f.inlineStack = map[*ssa.Function]bool{}
 	}
 	key := callee.String() + "\x01" + user
+	if f.OnReturn != nil {
+		key += "\x01" + fmt.Sprintf("%p", call)
+	}
 	if r, ok := f.inlineMemo[key]; ok {
 		return r
 	}
@@ -74,7 +82,7 @@ func (f *Flow) exitStates(callee *ssa.Function, user string) []string {
 	}
 	f.inlineStack[callee] = true
 	defer delete(f.inlineStack, callee)
-	sub := &Flow{Fn: callee, Init: []string{user}, Step: f.Step, StepDefer: f.StepDefer, Branch: f.Branch, MaxStates: f.MaxStates, Inline: f.Inline,
+	sub := &Flow{Fn: callee, Init: []string{user}, Step: f.Step, StepDefer: f.StepDefer, Branch: f.Branch, MaxStates: f.MaxStates, Inline: f.Inline, OnReturn: f.OnReturn,
 		inlineMemo: f.inlineMemo, inlineStack: f.inlineStack}
 	res := sub.Run()
 	set := map[string]bool{}
@@ -83,6 +91,9 @@ func (f *Flow) exitStates(callee *ssa.Function, user string) []string {
 			continue
 		}
 		for _, st := range res.Before(ret) {
+			if f.OnReturn != nil {
+				st = f.OnReturn(st, ret, call)
+			}
 			set[st] = true
 		}
 	}
@@ -144,6 +155,7 @@ func (f *Flow) Run() *FlowResult {
 			}
 		}
 	}
+	fx := factsFor(f.Fn)
 	entry := f.Fn.Blocks[0]
 	res.In[entry] = map[string]bool{}
 	for _, s := range f.Init {
@@ -168,15 +180,26 @@ func (f *Flow) Run() *FlowResult {
 				changed = true // visit at least once
 			}
 			for _, st := range out {
-				ns := st
+				core, fa := splitFacts(st)
+				if br != nil && fx.active() {
+					var feasible bool
+					fa, feasible = fx.assume(fa, br.Cond, si == 0)
+					if !feasible {
+						continue
+					}
+				}
 				if br != nil && f.Branch != nil {
-					u, d := splitState(st)
+					u, d := splitState(core)
 					nu, ok := f.Branch(u, br, si)
 					if !ok {
 						continue
 					}
-					ns = joinState(nu, d)
+					core = joinState(nu, d)
 				}
+				if fx.active() {
+					fa = fx.enter(fa, b, si, succ)
+				}
+				ns := joinFacts(core, fa)
 				if len(ns) > 2048 {
 					res.Blowup = true
 					return res
@@ -237,7 +260,7 @@ func (f *Flow) stepOne(st string, in ssa.Instruction, deferIdx map[*ssa.Defer]in
 				}
 				if r == nil && f.Inline != nil {
 					if callee := f.Inline(d); callee != nil {
-						r = f.exitStates(callee, u)
+						r = f.exitStates(callee, u, d)
 					}
 				}
 				if r == nil {
@@ -256,7 +279,7 @@ func (f *Flow) stepOne(st string, in ssa.Instruction, deferIdx map[*ssa.Defer]in
 	if r == nil && f.Inline != nil {
 		if ci, ok := in.(ssa.CallInstruction); ok {
 			if callee := f.Inline(ci); callee != nil {
-				r = f.exitStates(callee, user)
+				r = f.exitStates(callee, user, ci)
 			}
 		}
 	}
@@ -283,15 +306,33 @@ func dedup(in []string) []string {
 }
 
 func (f *Flow) transferBlock(b *ssa.BasicBlock, states []string, deferIdx map[*ssa.Defer]int, deferByIdx []*ssa.Defer, res *FlowResult) []string {
-	cur := states
-	for _, in := range b.Instrs {
-		var next []string
-		for _, st := range cur {
-			next = append(next, f.stepOne(st, in, deferIdx, deferByIdx, res)...)
+	// path facts (see facts.go) ride along unchanged inside a block
+	byCore := map[string][]string{}
+	var cores []string
+	for _, st := range states {
+		core, fa := splitFacts(st)
+		if _, ok := byCore[core]; !ok {
+			cores = append(cores, core)
 		}
-		cur = dedup(next)
+		byCore[core] = append(byCore[core], fa)
 	}
-	return cur
+	var out []string
+	for _, core := range cores {
+		cur := []string{core}
+		for _, in := range b.Instrs {
+			var next []string
+			for _, st := range cur {
+				next = append(next, f.stepOne(st, in, deferIdx, deferByIdx, res)...)
+			}
+			cur = dedup(next)
+		}
+		for _, fa := range byCore[core] {
+			for _, c := range cur {
+				out = append(out, joinFacts(c, fa))
+			}
+		}
+	}
+	return dedup(out)
 }
 
 // Before returns the user states that can hold immediately before instruction in
@@ -320,7 +361,12 @@ func (r *FlowResult) BeforeFull(in ssa.Instruction) []string {
 			}
 		}
 	}
-	cur := keys(r.In[b])
+	var cur []string
+	for _, st := range keys(r.In[b]) {
+		core, _ := splitFacts(st)
+		cur = append(cur, core)
+	}
+	cur = dedup(cur)
 	for _, i2 := range b.Instrs {
 		if i2 == in {
 			return cur
@@ -422,8 +468,139 @@ type Guard struct {
 	If   *ssa.If
 }
 
-// GuardsOf returns every branch edge that dominates the block, innermost first.
+// GuardsOf returns every branch edge that dominates the block, innermost
+// first, followed by the guards that hold on every feasible way into a
+// dominating test of a merged flag (see flagPreds): after
+//
+//	ok := false; if c { ...; ok = true }; if ok { B }
+//
+// block B is guarded by ok (a phi) and, through it, by c.
 func GuardsOf(b *ssa.BasicBlock) []Guard {
+	return guardsOf(b, 0)
+}
+
+func guardsOf(b *ssa.BasicBlock, depth int) []Guard {
+	out := directGuards(b)
+	if depth >= 3 {
+		return out
+	}
+	n := len(out)
+	for i := 0; i < n; i++ {
+		preds, opnds := flagPreds(out[i])
+		if preds == nil {
+			continue
+		}
+		var common []Guard
+		for k, p := range preds {
+			alt := guardsOf(p, depth+1)
+			if o := opnds[k]; o != nil {
+				// the merged operand itself has the tested polarity on this way in
+				c, neg := StripNot(o)
+				alt = append(alt, Guard{Cond: c, True: out[i].True != neg, If: out[i].If})
+			}
+			if k == 0 {
+				common = alt
+				continue
+			}
+			var keep []Guard
+			for _, g := range common {
+				for _, h := range alt {
+					if g.Cond == h.Cond && g.True == h.True {
+						keep = append(keep, g)
+						break
+					}
+				}
+			}
+			common = keep
+		}
+		for _, g := range common {
+			dup := false
+			for _, h := range out {
+				if h.Cond == g.Cond && h.True == g.True {
+					dup = true
+				}
+			}
+			if !dup {
+				out = append(out, g)
+			}
+		}
+	}
+	return out
+}
+
+// flagPreds: if the guard tests a phi that merges boolean (or nil) constants,
+// it returns the predecessors of the phi's block over which the test can have
+// the guard's polarity, and for each the merged operand when it is not a
+// constant (nil entry: constant). A nil result means: not such a guard.
+func flagPreds(g Guard) ([]*ssa.BasicBlock, []ssa.Value) {
+	var phi *ssa.Phi
+	wantNonNil, nilTest := false, false
+	switch x := g.Cond.(type) {
+	case *ssa.Phi:
+		phi = x
+	case *ssa.BinOp:
+		if x.Op != token.EQL && x.Op != token.NEQ {
+			return nil, nil
+		}
+		var other ssa.Value
+		if isNilConst(x.Y) {
+			other = x.X
+		} else if isNilConst(x.X) {
+			other = x.Y
+		}
+		p, ok := other.(*ssa.Phi)
+		if !ok {
+			return nil, nil
+		}
+		phi, nilTest = p, true
+		wantNonNil = g.True == (x.Op == token.NEQ)
+	default:
+		return nil, nil
+	}
+	blk := phi.Block()
+	if blk == nil || len(phi.Edges) != len(blk.Preds) {
+		return nil, nil
+	}
+	var preds []*ssa.BasicBlock
+	var opnds []ssa.Value
+	sawConst := false
+	for i, e := range phi.Edges {
+		if nilTest {
+			if isNilConst(e) {
+				sawConst = true
+				if wantNonNil {
+					continue
+				}
+				preds, opnds = append(preds, blk.Preds[i]), append(opnds, nil)
+				continue
+			}
+			if !wantNonNil {
+				switch e.(type) {
+				case *ssa.MakeInterface, *ssa.Alloc, *ssa.MakeClosure:
+					sawConst = true
+					continue // never nil
+				}
+			}
+			preds, opnds = append(preds, blk.Preds[i]), append(opnds, nil)
+			continue
+		}
+		if c, ok := boolConst(e); ok {
+			sawConst = true
+			if c != g.True {
+				continue
+			}
+			preds, opnds = append(preds, blk.Preds[i]), append(opnds, nil)
+			continue
+		}
+		preds, opnds = append(preds, blk.Preds[i]), append(opnds, e)
+	}
+	if !sawConst || len(preds) == 0 {
+		return nil, nil
+	}
+	return preds, opnds
+}
+
+func directGuards(b *ssa.BasicBlock) []Guard {
 	var out []Guard
 	for d := b; d != nil; d = d.Idom() {
 		var ext []*ssa.BasicBlock
@@ -469,7 +646,9 @@ func StripNot(v ssa.Value) (ssa.Value, bool) {
 	}
 }
 
-// InstrDominates reports whether a executes before b on every path to b.
+// InstrDominates reports whether a executes before b on every (feasible) path
+// to b: plain dominance, or dominance of every way into a merged-flag test
+// that guards b (see GuardsOf).
 func InstrDominates(a, b ssa.Instruction) bool {
 	ba, bb := a.Block(), b.Block()
 	if ba == bb {
@@ -483,7 +662,34 @@ func InstrDominates(a, b ssa.Instruction) bool {
 		}
 		return false
 	}
-	return ba.Dominates(bb)
+	return DominatesEnd(ba, bb, 0)
+}
+
+// DominatesEnd reports whether every feasible path to (the end of) block b runs through block a.
+func DominatesEnd(a, b *ssa.BasicBlock, depth int) bool {
+	if a == b || a.Dominates(b) {
+		return true
+	}
+	if depth >= 3 {
+		return false
+	}
+	for _, g := range directGuards(b) {
+		preds, _ := flagPreds(g)
+		if preds == nil {
+			continue
+		}
+		all := true
+		for _, p := range preds {
+			if !DominatesEnd(a, p, depth+1) {
+				all = false
+				break
+			}
+		}
+		if all {
+			return true
+		}
+	}
+	return false
 }
 
 // CanReach reports whether there is a CFG path from instruction a to
@@ -578,4 +784,53 @@ func SelectBranch(br *ssa.If, succIdx int) (SelectCase, bool) {
 		return SelectCase{}, false
 	}
 	return SelectCase{s, k}, true
+}
+
+// Cmp is the comparison that holds on a guarded path: op(X, Y) is true.
+type Cmp struct {
+	Op   token.Token
+	X, Y ssa.Value
+}
+
+// CmpOf returns the comparison a guard establishes, with the guard's polarity
+// folded into the operator (x != y on the false edge is x == y).
+func CmpOf(g Guard) (Cmp, bool) {
+	b, ok := g.Cond.(*ssa.BinOp)
+	if !ok {
+		return Cmp{}, false
+	}
+	op := b.Op
+	if !g.True {
+		switch op {
+		case token.EQL:
+			op = token.NEQ
+		case token.NEQ:
+			op = token.EQL
+		case token.LSS:
+			op = token.GEQ
+		case token.GEQ:
+			op = token.LSS
+		case token.GTR:
+			op = token.LEQ
+		case token.LEQ:
+			op = token.GTR
+		default:
+			return Cmp{}, false
+		}
+	}
+	switch op {
+	case token.EQL, token.NEQ, token.LSS, token.LEQ, token.GTR, token.GEQ:
+		return Cmp{op, b.X, b.Y}, true
+	}
+	return Cmp{}, false
+}
+
+// Is reports whether the comparison says `x op y` for operands accepted by
+// the two predicates, also when it is written the other way round (y op' x).
+func (c Cmp) Is(op token.Token, x, y func(ssa.Value) bool) bool {
+	if c.Op == op && x(c.X) && y(c.Y) {
+		return true
+	}
+	mirror := map[token.Token]token.Token{token.EQL: token.EQL, token.NEQ: token.NEQ, token.LSS: token.GTR, token.GTR: token.LSS, token.LEQ: token.GEQ, token.GEQ: token.LEQ}
+	return c.Op == mirror[op] && x(c.Y) && y(c.X)
 }
